@@ -129,35 +129,40 @@ Fixpoint span_digits (s : str) : str * str :=
   end.
 
 (* scanner for one JSON number at the head: (literal, rest) *)
+Definition scan_sign (s : str) : str * str :=
+  match s with c :: r => if c =? 45 then ([45], r) else ([], s) | [] => ([], s) end.
+
+Definition scan_frac (s : str) : option (str * str) :=
+  match s with
+  | c :: r => if c =? 46 then
+                let (fd, s3) := span_digits r in
+                if is_nil fd then None else Some (46 :: fd, s3)
+              else Some ([], s)
+  | [] => Some ([], s)
+  end.
+
+Definition scan_exp (s : str) : option (str * str) :=
+  match s with
+  | c :: r =>
+    if (c =? 101) || (c =? 69) then
+      let (sg, r') := match r with c2 :: r2 => if (c2 =? 43) || (c2 =? 45) then ([c2], r2) else ([], r) | [] => ([], r) end in
+      let (ed, s4) := span_digits r' in
+      if is_nil ed then None else Some (c :: sg ++ ed, s4)
+    else Some ([], s)
+  | [] => Some ([], s)
+  end.
+
 Definition scan_number (s : str) : option (str * str) :=
-  let (sign, s1) := match s with c :: r => if c =? 45 then ([45], r) else ([], s) | [] => ([], s) end in
+  let (sign, s1) := scan_sign s in
   let (ip, s2) := span_digits s1 in
   match ip with
   | [] => None
   | d0 :: ds =>
     if (d0 =? 48) && negb (is_nil ds) then None else
-    let frac :=
-      match s2 with
-      | c :: r => if c =? 46 then
-                    let (fd, s3) := span_digits r in
-                    if is_nil fd then None else Some (46 :: fd, s3)
-                  else Some ([], s2)
-      | [] => Some ([], s2)
-      end in
-    match frac with
+    match scan_frac s2 with
     | None => None
     | Some (fr, s3) =>
-      let ex :=
-        match s3 with
-        | c :: r =>
-          if (c =? 101) || (c =? 69) then
-            let (sg, r') := match r with c2 :: r2 => if (c2 =? 43) || (c2 =? 45) then ([c2], r2) else ([], r) | [] => ([], r) end in
-            let (ed, s4) := span_digits r' in
-            if is_nil ed then None else Some (c :: sg ++ ed, s4)
-          else Some ([], s3)
-        | [] => Some ([], s3)
-        end in
-      match ex with
+      match scan_exp s3 with
       | None => None
       | Some (e, s4) => Some (sign ++ ip ++ fr ++ e, s4)
       end
